@@ -448,6 +448,17 @@ func checkOne(repo string, pr *props.Property, tier string) int {
 	for _, id := range sharedNames {
 		sharedList = append(sharedList, sharedRules[id])
 	}
+	// a share that matches no obligation any more (rule renumbered, construct key reworded)
+	// would silently stop reporting: that fails the check like a rule below its instance count
+	for _, sh := range props.SharesFor(pr.ID) {
+		if !sh.Zero && sharedRules[sh.From+"."+sh.Rule+" "+sh.Key+" "+sh.Pos] == nil {
+			fmt.Printf("UNDECIDED property=%s shared rule %s.%s (%s %s) matches no obligation on this tree\n", pr.ID, sh.From, sh.Rule, sh.Key, sh.Pos)
+			nUndec++
+			if exit == 0 {
+				exit = 3
+			}
+		}
+	}
 	for _, o := range obs {
 		if o.Status == an.Info {
 			continue
@@ -766,6 +777,30 @@ func cmdDescribe(args []string) int {
 			fmt.Fprintf(&b, "| %s | %d | %d | %d | %d | %d | %d | %s |\n", n, len(a.keys), a.n, a.dis, a.kn, a.viol, a.info, strings.ReplaceAll(strings.Join(a.ex, "; "), "|", "\\|"))
 		}
 		b.WriteString("\n")
+		if shs := props.SharesFor(pr.ID); len(shs) > 0 {
+			b.WriteString("Also reported by this check (rules owned by a sibling property that decide a necessary condition of this one, `checker/props/shared.go`):\n\n| rule | constructs | obligations today | why it is a condition of this property | exhibited by |\n|---|---|---|---|---|\n")
+			for _, sh := range shs {
+				cnt := 0
+				for _, r := range res {
+					for _, o := range r.Obs {
+						if o.Status != an.Info && o.Prop == sh.From && o.Rule == sh.Rule {
+							if m := props.SharedTo(o, pr.ID); m != nil && m.Key == sh.Key && m.Pos == sh.Pos {
+								cnt++
+							}
+						}
+					}
+				}
+				filter := "all"
+				if sh.Key != "" {
+					filter = "key ~ `" + sh.Key + "`"
+				}
+				if sh.Pos != "" {
+					filter = strings.TrimPrefix(filter+", ", "all, ") + "position ~ `" + sh.Pos + "`"
+				}
+				fmt.Fprintf(&b, "| %s.%s | %s | %d | %s | %s |\n", sh.From, sh.Rule, strings.ReplaceAll(filter, "|", "\\|"), cnt, sh.Why, sh.Seed)
+			}
+			b.WriteString("\n")
+		}
 	}
 	if *out == "" {
 		fmt.Print(b.String())
